@@ -30,6 +30,8 @@ NAMED = collections.OrderedDict([
     ("exceptions-thrown", ["throw"]), ("exceptions-caught", ["catchNamed", "catchAll"]), ("finally", ["finallyRun"]),
     ("overloading", ["callOverloaded"]), ("macros", ["static:mcall"]),
     ("parametrised-domains", ["domCall"]), ("category-defaults", ["catDefault"]),
+    ("dead-stores-with-effects", ["static:deadstore"]), ("handlers-that-throw", ["static:handler-throws"]),
+    ("try-with-finally", ["static:finally"]), ("exception-values", ["exnVal"]),
 ])
 THRESHOLD = 5
 
@@ -180,6 +182,10 @@ def run(ctx):
                 for f in r["features"]:
                     feats[f] += 1
                 rules["static:mcall"] += json.dumps(p).count('"mcall"')
+                for key, v in M.static_counts(p).items():
+                    rules["static:" + key] += v
+                    if v:
+                        rules["programs-with:" + key] += 1
             else:
                 rejects[r["reject"].split(":")[0] if r["reject"].startswith(("type", "undefined", "parse")) else r["reject"][:40]] += 1
                 if r["reject"].startswith(("stuck", "parse", "driver", "model-order", "renderer")):
